@@ -15,7 +15,7 @@ Definition run_case (engine : bytes) (v : val) : val :=
                 :: cmp_obs (model_obs i) obs
                 ++ match dec_sobs obs with
                    | None => []      (* a panic or malformed observation: the comparison above reports it *)
-                   | Some o => spec_c01 i o ++ spec_c02 i o ++ spec_c03 i (dec_range_hint (i_hints i)) o
+                   | Some o => spec_serve_all i o
                    end)
         end
     | _ => VL [finding K_BAD engine (VL []) (VL [])]
